@@ -703,6 +703,16 @@ class BinaryOp(Expr):
         def qbool(x):
             return -1 if x else 0
 
+        def qb_intdiv(a, b):
+            # truncate toward zero, like the run-time instruction
+            q = abs(a) // abs(b)
+            return -q if (a < 0) != (b < 0) else q
+
+        def qb_mod(a, b):
+            # sign of the dividend, like the run-time instruction
+            r = abs(a) % abs(b)
+            return -r if a < 0 else r
+
         def limit(x):
             if not self.left.type.is_integral:
                 return x
@@ -734,8 +744,8 @@ class BinaryOp(Expr):
             Operator.SUB: lambda a, b: limit(a - b),
             Operator.MUL: lambda a, b: limit(a * b),
             Operator.DIV: lambda a, b: limit(a / b),
-            Operator.MOD: lambda a, b: limit(a % b),
-            Operator.INTDIV: lambda a, b: limit(a // b),
+            Operator.MOD: lambda a, b: limit(qb_mod(a, b)),
+            Operator.INTDIV: lambda a, b: limit(qb_intdiv(a, b)),
             Operator.EXP: lambda a, b: limit(a ** b),
         }[self.op](left, right)
 
